@@ -1,10 +1,10 @@
 package main
 
 // C19, CLI tier: the --exclude flags and the `diff { skip { ... } }` block of an environment reach the
-// plan. A live SQLite database and a desired schema that differ by one change of six kinds (drop/add
-// table, drop/add column, drop/add index) go through `atlas schema apply --auto-approve` on a copy of the database, which is then probed with an
+// plan. A live SQLite database and a desired schema that differ by one change of eleven kinds (drop/add
+// table, drop/add/modify column, drop/add/modify index, drop/add/modify foreign key) go through `atlas schema apply --auto-approve` on a copy of the database, which is then probed with an
 // independent client:
-//   * for every subset of the six skippable kinds configured in atlas.hcl, the plan holds no statement
+//   * for subsets of the eleven skippable kinds a SQLite scenario can show (and modify_table) configured in atlas.hcl, the plan holds no statement
 //     of a skipped kind and still holds every statement of the other kinds;
 //   * for exclusion patterns (names, wildcards, [type=...] selectors with one, two and three
 //     alternatives, two patterns at once) the plan does not touch an excluded resource and still holds
@@ -14,34 +14,61 @@ import (
 	"fmt"
 	"os"
 	"path/filepath"
+	"strconv"
 	"strings"
+
+	"verifharness/internal/hx"
 )
 
+// every change lives in a table of its own, unless it can share one without forcing SQLite to rebuild it
+// (a rebuilt table is re-created from the desired definition: see c19Rebuild)
 var c19Live = []string{
-	"CREATE TABLE users (id integer NOT NULL, name text NULL, PRIMARY KEY (id))",
+	"CREATE TABLE users (id integer NOT NULL, name text NULL, age integer NULL, PRIMARY KEY (id))",
 	"CREATE INDEX idx_legacy ON users (name)",
+	"CREATE TABLE mi (id integer NOT NULL, age integer NULL, PRIMARY KEY (id))",
+	"CREATE INDEX idx_mod ON mi (age)",
 	"CREATE TABLE items (id integer NOT NULL, legacy_col text NULL, PRIMARY KEY (id))",
+	"CREATE TABLE mc (id integer NOT NULL, age integer NULL, PRIMARY KEY (id))",
 	"CREATE TABLE old_table (id integer NOT NULL, PRIMARY KEY (id))",
 	"CREATE TABLE keep (id integer NOT NULL, PRIMARY KEY (id))",
+	"CREATE TABLE posts_d (id integer NOT NULL, user_id integer NULL, PRIMARY KEY (id), CONSTRAINT fk_drop FOREIGN KEY (user_id) REFERENCES keep (id))",
+	"CREATE TABLE posts_m (id integer NOT NULL, author_id integer NULL, PRIMARY KEY (id), CONSTRAINT fk_mod FOREIGN KEY (author_id) REFERENCES keep (id) ON DELETE CASCADE)",
+	"CREATE TABLE posts_a (id integer NOT NULL, editor_id integer NULL, PRIMARY KEY (id))",
 }
 
-const c19Desired = "CREATE TABLE users (id integer NOT NULL, name text NULL, email text NULL, PRIMARY KEY (id));\n" +
+const c19Desired = "CREATE TABLE users (id integer NOT NULL, name text NULL, age integer NULL, email text NULL, PRIMARY KEY (id));\n" +
 	"CREATE INDEX idx_new ON users (id, name);\n" +
+	"CREATE TABLE mi (id integer NOT NULL, age integer NULL, PRIMARY KEY (id));\n" +
+	"CREATE UNIQUE INDEX idx_mod ON mi (age);\n" +
 	"CREATE TABLE items (id integer NOT NULL, PRIMARY KEY (id));\n" +
+	"CREATE TABLE mc (id integer NOT NULL, age integer NOT NULL DEFAULT 0, PRIMARY KEY (id));\n" +
 	"CREATE TABLE keep (id integer NOT NULL, PRIMARY KEY (id));\n" +
-	"CREATE TABLE fresh (id integer NOT NULL, PRIMARY KEY (id));\n"
+	"CREATE TABLE fresh (id integer NOT NULL, PRIMARY KEY (id));\n" +
+	"CREATE TABLE posts_d (id integer NOT NULL, user_id integer NULL, PRIMARY KEY (id));\n" +
+	"CREATE TABLE posts_m (id integer NOT NULL, author_id integer NULL, PRIMARY KEY (id), CONSTRAINT fk_mod FOREIGN KEY (author_id) REFERENCES keep (id) ON DELETE SET NULL);\n" +
+	"CREATE TABLE posts_a (id integer NOT NULL, editor_id integer NULL, PRIMARY KEY (id), CONSTRAINT fk_add FOREIGN KEY (editor_id) REFERENCES keep (id));\n"
 
-// what each of the six changes does to the database: (probe query returning a count, count when the change was made)
+// what each of the changes does to the database: (probe query returning one value, value when the change was made)
 var c19Probe = map[string][2]string{
-	"drop_table":  {"SELECT count(*) FROM sqlite_master WHERE type='table' AND name='old_table'", "0"},
-	"add_table":   {"SELECT count(*) FROM sqlite_master WHERE type='table' AND name='fresh'", "1"},
-	"drop_column": {"SELECT count(*) FROM pragma_table_info('items') WHERE name='legacy_col'", "0"},
-	"add_column":  {"SELECT count(*) FROM pragma_table_info('users') WHERE name='email'", "1"},
-	"drop_index":  {"SELECT count(*) FROM sqlite_master WHERE type='index' AND name='idx_legacy'", "0"},
-	"add_index":   {"SELECT count(*) FROM sqlite_master WHERE type='index' AND name='idx_new'", "1"},
+	"drop_table":         {"SELECT count(*) FROM sqlite_master WHERE type='table' AND name='old_table'", "0"},
+	"add_table":          {"SELECT count(*) FROM sqlite_master WHERE type='table' AND name='fresh'", "1"},
+	"drop_column":        {"SELECT count(*) FROM pragma_table_info('items') WHERE name='legacy_col'", "0"},
+	"add_column":         {"SELECT count(*) FROM pragma_table_info('users') WHERE name='email'", "1"},
+	"modify_column":      {"SELECT count(*) FROM pragma_table_info('mc') WHERE name='age' AND \"notnull\"=1", "1"},
+	"drop_index":         {"SELECT count(*) FROM sqlite_master WHERE type='index' AND name='idx_legacy'", "0"},
+	"add_index":          {"SELECT count(*) FROM sqlite_master WHERE type='index' AND name='idx_new'", "1"},
+	"modify_index":       {"SELECT count(*) FROM sqlite_master WHERE type='index' AND name='idx_mod' AND sql LIKE '%UNIQUE%'", "1"},
+	"drop_foreign_key":   {"SELECT count(*) FROM pragma_foreign_key_list('posts_d') WHERE \"from\"='user_id'", "0"},
+	"add_foreign_key":    {"SELECT count(*) FROM pragma_foreign_key_list('posts_a') WHERE \"from\"='editor_id'", "1"},
+	"modify_foreign_key": {"SELECT count(*) FROM pragma_foreign_key_list('posts_m') WHERE \"from\"='author_id' AND on_delete='SET NULL'", "1"},
 }
 
-var c19Kinds = []string{"drop_table", "add_table", "drop_column", "add_column", "drop_index", "add_index"}
+// every kind of the diff.skip block that the SQLite scenario can show (modify_table, which silences all the
+// changes inside existing tables, is judged through them)
+var c19Kinds = []string{"drop_table", "add_table", "drop_column", "add_column", "modify_column", "drop_index", "add_index", "modify_index", "drop_foreign_key", "add_foreign_key", "modify_foreign_key"}
+
+// c19InTable: the kinds that live inside a ModifyTable
+var c19InTable = []string{"drop_column", "add_column", "modify_column", "drop_index", "add_index", "modify_index", "drop_foreign_key", "add_foreign_key", "modify_foreign_key"}
 
 func c19CLI(e *Env) {
 	if e.Atlas == "" {
@@ -104,29 +131,53 @@ func c19CLI(e *Env) {
 		copyFile(filepath.Join(dir, "db.sqlite"), filepath.Join(dir, name))
 		return name
 	}
-	// (1) diff.skip: every subset of the six kinds
-	for mask := 0; mask < 1<<len(c19Kinds); mask++ {
-		if !e.Thorough() && mask%3 != 0 && mask != 1<<len(c19Kinds)-1 {
-			continue
+	// (1) diff.skip: no kind, every single kind, every pair, all kinds, a seeded sample of larger subsets
+	// (thorough: 400 of them), and modify_table alone / with others
+	var masks [][]string
+	masks = append(masks, nil, append([]string{}, c19Kinds...), []string{"modify_table"}, []string{"modify_table", "add_table", "drop_table"})
+	for i, k := range c19Kinds {
+		masks = append(masks, []string{k})
+		for _, k2 := range c19Kinds[i+1:] {
+			if e.Thorough() || (i+len(k2))%3 == 0 {
+				masks = append(masks, []string{k, k2})
+			}
 		}
-		var skipped []string
+	}
+	rr := hx.NewRand(e.Seed, "c19cli-skip")
+	nrand := 12
+	if e.Thorough() {
+		nrand = 400
+	}
+	for k := 0; k < nrand; k++ {
+		var m []string
+		for _, kind := range c19Kinds {
+			if rr.Chance(1, 2) {
+				m = append(m, kind)
+			}
+		}
+		masks = append(masks, m)
+	}
+	for mi, skipped := range masks {
 		var b strings.Builder
-		db := fresh(fmt.Sprintf("skip%d.sqlite", mask))
+		db := fresh(fmt.Sprintf("skip%d.sqlite", mi))
 		b.WriteString("env \"local\" {\n  url = \"sqlite://" + db + "\"\n  src = \"file://schema.sql\"\n  dev = \"sqlite://dev?mode=memory\"\n")
-		if mask != 0 {
+		if len(skipped) > 0 {
 			b.WriteString("  diff {\n    skip {\n")
-			for i, k := range c19Kinds {
-				if mask&(1<<i) != 0 {
-					skipped = append(skipped, k)
-					fmt.Fprintf(&b, "      %s = true\n", k)
-				}
+			for _, k := range skipped {
+				fmt.Fprintf(&b, "      %s = true\n", k)
 			}
 			b.WriteString("    }\n  }\n")
 		}
 		b.WriteString("}\n")
 		os.WriteFile(filepath.Join(dir, "atlas.hcl"), []byte(b.String()), 0o644)
 		o := runAtlas(e, dir, nil, "schema", "apply", "--env", "local", "--auto-approve")
-		judge(fmt.Sprintf("skip:%d", mask), fmt.Sprintf("`schema apply --env local --auto-approve` with diff.skip %v", skipped), db, o, skipped)
+		absent := append([]string{}, skipped...)
+		for _, k := range skipped {
+			if k == "modify_table" {
+				absent = append(absent, c19InTable...)
+			}
+		}
+		judge(fmt.Sprintf("skip:%s", strings.Join(skipped, "+")), fmt.Sprintf("`schema apply --env local --auto-approve` with diff.skip %v", skipped), db, o, absent)
 		os.Remove(filepath.Join(dir, db))
 	}
 	os.Remove(filepath.Join(dir, "atlas.hcl"))
@@ -136,6 +187,8 @@ func c19CLI(e *Env) {
 		absent []string
 		hidden []string // names `schema inspect --exclude` must not print
 	}
+	idx := []string{"drop_index", "add_index", "modify_index"}
+	fks := []string{"drop_foreign_key", "add_foreign_key", "modify_foreign_key"}
 	cases := []ex{
 		{nil, nil, nil},
 		{[]string{"old_table"}, []string{"drop_table"}, []string{"old_table"}},
@@ -143,16 +196,18 @@ func c19CLI(e *Env) {
 		{[]string{"items.legacy_col"}, []string{"drop_column"}, []string{"legacy_col"}},
 		{[]string{"*.legacy_col[type=column]"}, []string{"drop_column"}, []string{"legacy_col"}},
 		{[]string{"users.idx_legacy"}, []string{"drop_index"}, []string{"idx_legacy"}},
-		{[]string{"users.*[type=index]"}, []string{"drop_index", "add_index"}, []string{"idx_legacy"}},
-		{[]string{"users.*[type=index|fk]"}, []string{"drop_index", "add_index"}, []string{"idx_legacy"}},
-		{[]string{"users.*[type=check|index|fk]"}, []string{"drop_index", "add_index"}, []string{"idx_legacy"}},
-		{[]string{"*.*[type=fk|check|index]"}, []string{"drop_index", "add_index"}, []string{"idx_legacy"}},
-		{[]string{"old_*", "users.idx_*"}, []string{"drop_table", "drop_index", "add_index"}, []string{"old_table", "idx_legacy"}},
-		{[]string{"old_table", "fresh", "items.legacy_col", "users.email"}, []string{"drop_table", "add_table", "drop_column", "add_column"}, []string{"old_table", "legacy_col"}},
+		{[]string{"users.*[type=index]"}, idx[:2], []string{"idx_legacy"}},
+		{[]string{"users.*[type=index|fk]", "mi.idx_mod"}, idx, []string{"idx_legacy"}},
+		{[]string{"users.*[type=check|index|fk]"}, idx[:2], []string{"idx_legacy"}},
+		{[]string{"*.*[type=fk|check|index]"}, append(append([]string{}, idx...), fks...), []string{"idx_legacy", "fk_drop"}},
+		{[]string{"*.*[type=fk]"}, fks, []string{"fk_drop", "fk_mod"}},
+		{[]string{"posts_d.fk_drop", "posts_a.*[type=fk]"}, []string{"drop_foreign_key", "add_foreign_key"}, []string{"fk_drop"}},
+		{[]string{"old_*", "*.idx_*"}, append([]string{"drop_table"}, idx...), []string{"old_table", "idx_legacy"}},
+		{[]string{"old_table", "fresh", "items.legacy_col", "users.email", "mc.age"}, []string{"drop_table", "add_table", "drop_column", "add_column", "modify_column"}, []string{"old_table", "legacy_col"}},
 		{[]string{"*[type=table]"}, c19Kinds, []string{"users", "old_table"}},
 		// selectors that match no table at all must leave the tables alone
 		{[]string{"*[type=view]"}, nil, nil},
-		{[]string{"*[type=trigger]", "*.*[type=fk]"}, nil, nil},
+		{[]string{"*[type=trigger]", "*[type=function]"}, nil, nil},
 		{[]string{"*[type=view|trigger]"}, nil, nil},
 	}
 	for i, c := range cases {
@@ -165,6 +220,26 @@ func c19CLI(e *Env) {
 		o := runAtlas(e, dir, nil, append(args, xs...)...)
 		judge(fmt.Sprintf("exclude:%d", i), fmt.Sprintf("`schema apply --auto-approve --exclude %v`", c.pats), db, o, c.absent)
 		os.Remove(filepath.Join(dir, db))
+		if len(c.pats) > 0 {
+			// the same patterns as the `exclude` list of the environment (no flag on the command line)
+			db := fresh(fmt.Sprintf("exenv%d.sqlite", i))
+			qs := make([]string, len(c.pats))
+			for k, p := range c.pats {
+				qs[k] = strconv.Quote(p)
+			}
+			os.WriteFile(filepath.Join(dir, "atlas.hcl"), []byte("env \"local\" {\n  url = \"sqlite://"+db+"\"\n  src = \"file://schema.sql\"\n  dev = \"sqlite://dev?mode=memory\"\n  exclude = ["+strings.Join(qs, ", ")+"]\n}\n"), 0o644)
+			o := runAtlas(e, dir, nil, "schema", "apply", "--env", "local", "--auto-approve")
+			judge(fmt.Sprintf("exclude-env:%d", i), fmt.Sprintf("`schema apply --env local --auto-approve` with exclude = %v in the environment", c.pats), db, o, c.absent)
+			in := runAtlas(e, dir, nil, "schema", "inspect", "--env", "local")
+			os.Remove(filepath.Join(dir, db))
+			os.Remove(filepath.Join(dir, "atlas.hcl"))
+			for _, h := range c.hidden {
+				if in.Code == 0 && strings.Contains(in.Stdout, "\""+h+"\"") {
+					e.Res.Violate("failing-input", "cli-excluded-resource-inspected", fmt.Sprintf("`schema inspect --env local` with exclude = %v still prints %q:\n%s", c.pats, h, trunc(in.Stdout, 600)), "Props.C19 exclude (CLI)", map[string]any{"case": c.pats})
+					break
+				}
+			}
+		}
 		in := runAtlas(e, dir, nil, append([]string{"schema", "inspect", "--url", "sqlite://db.sqlite"}, xs...)...)
 		e.Res.Count(fmt.Sprintf("cli:inspect:%d", i), len(c.hidden) > 0, "cli:inspect")
 		if in.Code != 0 {
@@ -181,6 +256,56 @@ func c19CLI(e *Env) {
 			if len(c.absent) < len(c19Kinds) && !strings.Contains(in.Stdout, "\""+must+"\"") {
 				e.Res.Violate("failing-input", "cli-other-change-lost", fmt.Sprintf("`schema inspect --exclude %v` no longer prints table %q", c.pats, must), "Props.C19 exclude (CLI)", map[string]any{"case": c.pats})
 			}
+		}
+	}
+}
+
+// c19Rebuild: the same skip kinds on a table that SQLite has to rebuild for another, unskipped change.
+// The rebuilt table is created from the desired definition, so the skipped changes of that table are made
+// nevertheless (or the plan fails): reported under one signature (known finding).
+func c19Rebuild(e *Env) {
+	if e.Atlas == "" {
+		return
+	}
+	dir := filepath.Join(e.Work, "c19rebuild")
+	os.RemoveAll(dir)
+	os.MkdirAll(dir, 0o755)
+	defer os.RemoveAll(dir)
+	live := []string{
+		"CREATE TABLE r (id integer NOT NULL, age integer NULL, name text NULL, PRIMARY KEY (id))",
+		"CREATE INDEX r_legacy ON r (name)",
+	}
+	desired := "CREATE TABLE r (id integer NOT NULL, age integer NOT NULL DEFAULT 0, name text NULL, email text NULL, PRIMARY KEY (id));\nCREATE INDEX r_new ON r (id);\n"
+	os.WriteFile(filepath.Join(dir, "schema.sql"), []byte(desired), 0o644)
+	probes := map[string][2]string{
+		"add_column": {"SELECT count(*) FROM pragma_table_info('r') WHERE name='email'", "1"},
+		"add_index":  {"SELECT count(*) FROM sqlite_master WHERE type='index' AND name='r_new'", "1"},
+		"drop_index": {"SELECT count(*) FROM sqlite_master WHERE type='index' AND name='r_legacy'", "0"},
+	}
+	for _, k := range []string{"add_column", "add_index", "drop_index"} {
+		db := "r_" + k + ".sqlite"
+		os.Remove(filepath.Join(dir, db))
+		if err := execSQL(filepath.Join(dir, db), live...); err != nil {
+			e.Res.Note("c19rebuild setup: %v", err)
+			return
+		}
+		os.WriteFile(filepath.Join(dir, "atlas.hcl"), []byte("env \"local\" {\n  url = \"sqlite://"+db+"\"\n  src = \"file://schema.sql\"\n  dev = \"sqlite://dev?mode=memory\"\n  diff {\n    skip {\n      "+k+" = true\n    }\n  }\n}\n"), 0o644)
+		o := runAtlas(e, dir, nil, "schema", "apply", "--env", "local", "--auto-approve")
+		e.Res.Count("cli:rebuild:"+k, true, "cli:rebuild")
+		rep := map[string]any{"case": "rebuild+" + k, "live": live, "desired": desired}
+		if o.Code != 0 {
+			e.Res.Violate("failing-input", "sqlite-rebuild-ignores-skip", fmt.Sprintf("`schema apply --env local` with diff.skip [%s] on a table that is rebuilt for another change fails: %s", k, trunc(o.Stderr+o.Stdout, 900)), "Props.C19.skip_sound (CLI)", rep)
+			continue
+		}
+		conn, err := openSQLite(filepath.Join(dir, db), false)
+		if err != nil {
+			continue
+		}
+		var n string
+		err = conn.QueryRow(probes[k][0]).Scan(&n)
+		conn.Close()
+		if err == nil && n == probes[k][1] {
+			e.Res.Violate("failing-input", "sqlite-rebuild-ignores-skip", fmt.Sprintf("`schema apply --env local` with diff.skip [%s]: the table is rebuilt for another change and the skipped change is made nevertheless:\n%s", k, trunc(o.Stdout, 700)), "Props.C19.skip_sound (CLI)", rep)
 		}
 	}
 }
